@@ -104,11 +104,11 @@ func (p *IdentityProvider) attributeQueryHandleFunc(w http.ResponseWriter, r *ht
 		signaturePostProvided(
 			func() *xml_dsig.SignatureType { return attrQuery.Signature },
 		),
-		verifyPostSignature(
-			func() string { return attrQueryRequest },
-			func() *serviceprovider.ServiceProvider { return sp },
-			func(errF error) { err = errF },
-		),
+		func() error {
+			// the request is the plain SOAP envelope (not base64 encoded) with the signed query inside its body
+			err = sp.ValidateAttributeQuerySignature(attrQueryRequest)
+			return err
+		},
 		func() {
 			http.Error(w, fmt.Errorf("failed to extract signature from request: %w", err).Error(), http.StatusInternalServerError)
 		},
